@@ -371,6 +371,10 @@ func TestVerifC39Render(t *testing.T) {
 	ctx := context.Background()
 	n := r.N(300, 5000)
 	directed := opDirected()
+	if roc, _ := opFromReplay(verifkit.Replay()); roc != nil {
+		directed = append([]*opCase{roc}, directed...)
+		r.Count("replayed_cases", 1)
+	}
 	for ci := 0; ci < n; ci++ {
 		rng := r.Rand(ci)
 		oc := opGenCluster(rng, opGenOpts{})
@@ -517,6 +521,10 @@ func TestVerifC39Publish(t *testing.T) {
 	ctx := context.Background()
 	n := r.N(50, 800)
 	directed := opDirected()
+	if roc, _ := opFromReplay(verifkit.Replay()); roc != nil {
+		directed = append([]*opCase{roc}, directed...)
+		r.Count("replayed_cases", 1)
+	}
 	for ci := 0; ci < n; ci++ {
 		rng := r.Rand(ci)
 		oc := opGenCluster(rng, opGenOpts{EtcdEndpoints: endpoints})
